@@ -425,6 +425,9 @@ def run_check(plugin, tier, seed, replay=None):
         rc, txt, results = run_go(binary, cases, rundir, timeout=getattr(plugin, "GO_TIMEOUT", 900))
         if rc != 0:
             notes.append("harness exit %s: %s" % (rc, txt[-1500:]))
+        if hasattr(plugin, "judge_run"):
+            # observations on the run as a whole (e.g. race-detector reports in the harness output)
+            monitor_fail += plugin.judge_run(rc, txt, cases, results, stats)
         lits = []
         for c in cases:
             r = results.get(c["id"])
